@@ -136,8 +136,10 @@ func (r *c18Run) bagList(o lib.Outcome) string {
 // genOp chooses the next operation against the bag's current tree.
 func (r *c18Run) genOp(root any) c18Op {
 	g := r.g
-	op := c18Op{Mode: g.r.Intn(16)}
+	op := c18Op{Mode: g.r.Intn(16) + 16*g.r.Intn(8)}
 	switch n := g.r.Intn(100); {
+	case n < 6:
+		op.Op = "M"
 	case n < 30:
 		op.Op = "S"
 	case n < 45:
@@ -153,7 +155,7 @@ func (r *c18Run) genOp(root any) c18Op {
 	}
 	var p ppath
 	switch op.Op {
-	case "S", "R":
+	case "S", "R", "M":
 		for tries := 0; ; tries++ {
 			p = g.mutatePath(root, op.Op == "S")
 			kinds := p.stepKinds(root)
@@ -170,7 +172,7 @@ func (r *c18Run) genOp(root any) c18Op {
 		op.Op = "N" // the Lisp-level result (slip.SimpleObject of the node) instead of a bag
 	}
 	op.Path = strings.Join(p.wire(), " ")
-	if op.Op == "S" {
+	if op.Op == "S" || op.Op == "M" {
 		v := g.doc(2)
 		if g.avoid.sharedValue && !p.definite() && (v.kind == 'a' || v.kind == 'o') {
 			v = g.scalar()
@@ -242,7 +244,7 @@ func (r *c18Run) execOp(b *flavors.Instance, op c18Op) c18OpObs {
 		}
 		ob.result = r.bagList(r.impl.eval(src, binds))
 		ob.allList = r.bagList(r.impl.eval("(bag-get-all c18-b c18-p)", binds))
-	case "S", "R":
+	case "S", "R", "M":
 		var q ppath
 		if p.definite() {
 			for tries := 0; tries < 6; tries++ {
@@ -258,7 +260,27 @@ func (r *c18Run) execOp(b *flavors.Instance, op c18Op) c18OpObs {
 			ob.frameOld, _ = r.getCanon(b, q, 2)
 		}
 		var o lib.Outcome
-		if op.Op == "S" {
+		if op.Op == "M" {
+			// bag-modify with a function that ignores its argument and returns the value (a bag
+			// instance, so that any document can be returned)
+			v := parseDoc(op.Value)
+			ob.valKind = v.leafKind()
+			vb, vo := r.impl.makeBag(v.text(), 0)
+			if !vo.Ok {
+				ob.result, ob.msg = "err value "+vo.Class, vo.Msg
+				return ob
+			}
+			binds["c18-v"] = vb
+			asBag := ""
+			if op.Mode&4 != 0 {
+				asBag = " :as-bag t"
+			}
+			src := "(bag-modify c18-b (lambda (x) c18-v) c18-p" + asBag + ")"
+			if send {
+				src = "(send c18-b :modify (lambda (x) c18-v) c18-p" + asBag + ")"
+			}
+			o = r.impl.eval(src, binds)
+		} else if op.Op == "S" {
 			v := parseDoc(op.Value)
 			ob.valKind = v.leafKind()
 			var vobj slip.Object
@@ -278,6 +300,25 @@ func (r *c18Run) execOp(b *flavors.Instance, op c18Op) c18OpObs {
 			src := "(bag-set c18-b c18-v c18-p)"
 			if send {
 				src = "(send c18-b :set c18-v c18-p)"
+			}
+			// the value may also arrive as text: bag-parse / :parse / bag-read / :read with a path
+			// set what they parse at the path
+			switch (op.Mode >> 4) & 7 {
+			case 1:
+				binds["c18-v"] = slip.String(v.text())
+				src = "(bag-parse c18-b c18-v c18-p)"
+				if send {
+					src = "(send c18-b :parse c18-v c18-p)"
+				}
+			case 2:
+				binds["c18-v"] = slip.Octets([]byte(v.text()))
+				src = "(bag-parse c18-b c18-v c18-p)"
+			case 3:
+				binds["c18-v"] = slip.String(v.text())
+				src = "(bag-read c18-b (make-string-input-stream c18-v) c18-p)"
+				if send {
+					src = "(send c18-b :read (make-string-input-stream c18-v) c18-p)"
+				}
 			}
 			o = r.impl.eval(src, binds)
 			if o.Ok && p.definite() {
@@ -303,7 +344,7 @@ func (r *c18Run) execOp(b *flavors.Instance, op c18Op) c18OpObs {
 }
 
 func opName(op string) string {
-	return map[string]string{"G": "get", "N": "get-native", "H": "has", "A": "get-all", "W": "walk", "S": "set", "R": "remove"}[op]
+	return map[string]string{"M": "modify", "G": "get", "N": "get-native", "H": "has", "A": "get-all", "W": "walk", "S": "set", "R": "remove"}[op]
 }
 
 func nilIfNull(c string) string {
@@ -353,7 +394,7 @@ func (r *c18Run) runOps(cases []*c18Case) {
 				mop = "A"
 			}
 			req = append(req, mop, op.Path)
-			if op.Op == "S" {
+			if op.Op == "S" || op.Op == "M" {
 				req = append(req, op.Value)
 			}
 			r.c.Ev.Hist("op", opName(op.Op))
@@ -393,7 +434,7 @@ func (r *c18Run) runOps(cases []*c18Case) {
 			}
 			m := strings.TrimSpace(parts[k])
 			steps, valKind := ob.steps, ob.valKind
-			trailing := len(ob.path) > 0 && ob.path[len(ob.path)-1].kind == 'd' && ob.op.Op != "S" && ob.op.Op != "R" && ob.op.Op != "N"
+			trailing := len(ob.path) > 0 && ob.path[len(ob.path)-1].kind == 'd' && ob.op.Op != "S" && ob.op.Op != "R" && ob.op.Op != "N" && ob.op.Op != "M"
 			if trailing {
 				// a query path ending in a descent is outside JSONPath (RFC 9535); ojg accepts it:
 				// only the relations between the implementation's own answers are checked
